@@ -77,7 +77,7 @@ pub fn scenario_sets(tier: Tier) -> Vec<Entry> {
     }
     for silent in [vec![Some(840_000u64), Some(840_000), None], vec![Some(60_000), None, Some(60_000), Some(960_000)]] {
         let contacts: Vec<super::c11::Contact> = silent.iter().map(|s| super::c11::Contact { leaf: false, silent_at: *s, hearsay: false }).collect();
-        let cfg = super::c11::Cfg { contacts, well_connected: true, search_every_ms: Some(600_000), forget_after_ms: 0, minutes: tier.pick(40, 120), latency: 20, per_contact_latency: vec![], unreachable_when_silent: false, rng_seed: 1 };
+        let cfg = super::c11::Cfg { contacts, well_connected: true, search_every_ms: Some(600_000), forget_after_ms: 0, minutes: tier.pick(40, 120), latency: 20, per_contact_latency: vec![], unreachable_when_silent: false, announce_burst_at: None, rng_seed: 1 };
         v.push(Entry {
             desc: json!({"set":"C11-well-connected","silent":silent}),
             real_nodes: vec![super::c11::n_addr()],
